@@ -1109,6 +1109,20 @@ pub fn io_pressure(rng: &mut Rng) -> String {
     let in_loop = rng.chance(1, 3);
     let counter = k + 1;
     let scratch = k;
+    if rng.chance(1, 3) {
+        // a constant that does not fit 32 bits (on 64-bit cells), added to a few cells whose
+        // values are alive in temporaries: wide-immediate forms of the instruction selector
+        let big = (1u64 << rng.range(32, 40)) + 1 + rng.below(200);
+        let far = k + 2;
+        build_const(&mut a, far, far + 1, big);
+        let targets: Vec<i64> = (0..rng.range(2, 4)).map(|_| rng.range(0, k - 1)).collect();
+        a.while_(far, |a| {
+            for &t in &targets {
+                a.add(t, 1);
+            }
+            a.add(far, -1);
+        });
+    }
     let passes = rng.urange(2, 4);
     let body = |a: &mut Asm, rng: &mut Rng| {
         for _ in 0..passes {
@@ -1196,6 +1210,14 @@ pub fn io_pressure(rng: &mut Rng) -> String {
                 a.add(x, 1);
                 a.add(sx, -1);
             });
+            if rng.chance(1, 2) {
+                // in place: x = x * y
+                a.clear(x);
+                a.while_(z, |a| {
+                    a.add(x, 1);
+                    a.add(z, -1);
+                });
+            }
             if rng.chance(1, 3) {
                 a.output(z);
             }
